@@ -18,7 +18,7 @@ import (
 
 // Peer is another goroutine using the channel.
 type Peer struct {
-	Kind  string `json:"kind"` // send recv close cancel
+	Kind  string `json:"kind"` // send sendclose (sends, then closes the channel) recv close cancel
 	Delay int    `json:"delay,omitempty"`
 	Sleep int64  `json:"sleep,omitempty"` // virtual nanoseconds before acting
 	N     int    `json:"n,omitempty"`     // number of values to send/receive (default 1)
@@ -99,6 +99,11 @@ func (H) Generate(r *simrt.Rand, tier string) any {
 		if !s.Closed && r.Intn(2) == 0 {
 			for i := 0; i < 1+r.Intn(2); i++ {
 				s.Peers = append(s.Peers, Peer{Kind: "send", Delay: r.Intn(6), N: 1 + r.Intn(3+s.Cap/8)})
+			}
+			if len(s.Peers) == 1 && r.Intn(2) == 0 {
+				// the usual producer: sends what it has, then closes the channel - while
+				// the queued receiver may be in the middle of draining it
+				s.Peers[0].Kind = "sendclose"
 			}
 		}
 		if r.Intn(4) == 0 {
@@ -270,6 +275,15 @@ func (H) Execute(scAny any, cfg simrt.Config, st *core.Stats) (*simrt.Outcome, *
 						simrt.Send(ch, tok)
 						logs[i].sentAck = append(logs[i].sentAck, tok)
 					}
+				case "sendclose":
+					for k := 0; k < p.count(); k++ {
+						tok := 1000*(i+1) + k
+						logs[i].offered = append(logs[i].offered, tok)
+						simrt.Send(ch, tok)
+						logs[i].sentAck = append(logs[i].sentAck, tok)
+					}
+					closeAt = simrt.Stamp()
+					simrt.Close(ch)
 				case "recv":
 					for k := 0; k < p.count(); k++ {
 						v, ok := simrt.Recv2(ch)
